@@ -51,3 +51,17 @@ pub fn random_spec(rng: &mut Rng, tier: Tier, among: Option<&[Kind]>) -> NodeSpe
     let params = Params::new(random_period(rng, tier), random_period(rng, tier), random_period(rng, tier), random_mult(rng));
     NodeSpec { kind, params, mode: random_mode(rng, kind) }
 }
+
+/// VERIF_SCALE (default 1.0) scales the number of seeded runs (used by the self-tests only).
+pub fn scaled(n: u64) -> u64 {
+    let f = std::env::var("VERIF_SCALE").ok().and_then(|s| s.parse::<f64>().ok()).unwrap_or(1.0);
+    ((n as f64 * f) as u64).max(1)
+}
+/// VERIF_SKIP_FIXED: skip the seed-independent corpora (self-tests of determinism only)
+pub fn skip_fixed() -> bool {
+    std::env::var("VERIF_SKIP_FIXED").is_ok()
+}
+/// VERIF_FAST: skip the sub-process stages of C05 (Miri and the two-process diff)
+pub fn fast() -> bool {
+    std::env::var("VERIF_FAST").is_ok()
+}
